@@ -208,18 +208,24 @@ func (c *vChain) ctx() sdk.Context {
 }
 
 // signTx builds and signs a tx; signer is the actor whose key is used, which
-// may differ from msg.GetSigners() (wrong-signer probes).
-func (c *vChain) signTx(signer *vActor, msgs []sdk.Msg) ([]byte, error) {
+// may differ from msg.GetSigners() (wrong-signer probes).  If claim is not
+// nil the tx names claim's public key, account number and sequence while
+// the signature is still made with signer's key (forged-signature probe).
+func (c *vChain) signTx(signer *vActor, claim *vActor, msgs []sdk.Msg) ([]byte, error) {
 	ctx := c.ctx()
-	acc := c.app.keeper.acct.GetAccount(ctx, signer.Addr)
+	who := signer
+	if claim != nil {
+		who = claim
+	}
+	acc := c.app.keeper.acct.GetAccount(ctx, who.Addr)
 	if acc == nil {
-		return nil, fmt.Errorf("no account for %s", signer.Name)
+		return nil, fmt.Errorf("no account for %s", who.Name)
 	}
 	accNum, seq := acc.GetAccountNumber(), acc.GetSequence()
 
 	signMode := c.txcfg.SignModeHandler().DefaultMode()
 	sig := signing.SignatureV2{
-		PubKey:   signer.priv.PubKey(),
+		PubKey:   who.priv.PubKey(),
 		Data:     &signing.SingleSignatureData{SignMode: signMode},
 		Sequence: seq,
 	}
